@@ -358,6 +358,8 @@ func runFaults(sc *fScenario) (d string, tag string) {
 		}
 	}()
 	base, _ := libraryGoroutines()
+	lifeRec.begin()
+	defer func() { lifeRec.end(d == "" && foreignD == "") }() // runs after the clean-up below: every connection has been ended
 	r := newBrokerRun("mockSuccess", 2)
 	fr := &faultRun{r: r, cl: map[string]*fClient{}, wills: map[string]int{}, never: map[string]bool{}}
 	if len(sc.H) > 0 {
@@ -764,6 +766,7 @@ func cmdFaults(a Args) {
 	maxKeptMismatches = 40
 	own := a.str("own", "")
 	faultsOwn = own
+	lifeOpen(a.str("life", ""), a.num("lifeevery", 1))
 	err := readLines(a, func(line []byte) error {
 		var sc fScenario
 		if err := json.Unmarshal(line, &sc); err != nil {
@@ -827,6 +830,7 @@ func cmdFaults(a Args) {
 	if err != nil {
 		fatal("faults: %v", err)
 	}
+	res.Counts["life_recordings"], res.Counts["life_events"] = lifeRec.close()
 	res.emit()
 }
 
